@@ -272,7 +272,15 @@ func runC07impl(rc *RunCtx, faulty, large bool) *simkit.Violation {
 	// repos
 	{
 		o1, o2, desc := optsFor()
-		tk, v := run("list-repos", func() (interface{}, error) { return core.ListRepos(st, o1, o2) })
+		repoApply := t.Bool(1, 3)
+		tk, v := run("list-repos", func() (interface{}, error) {
+			if repoApply {
+				var rs []model.RepoDescriptor
+				err := core.ListReposApply(st, func(x model.RepoDescriptor) error { rs = append(rs, x); return nil }, o1, o2)
+				return rs, err
+			}
+			return core.ListRepos(st, o1, o2)
+		})
 		if v != nil {
 			return v
 		}
